@@ -117,15 +117,29 @@ func (P *Prog) ivCheck() *ssa.Function {
 		}
 	}
 	// decoder side: reachable from the structure decoders
+	var decSide []*ssa.Function
 	for f := range P.decoderFamily() {
 		for _, ci := range callsIn(f, nil) {
-			if c := staticCallee(ci); isCand(c) && encSide[c] {
-				return c
+			if c := staticCallee(ci); isCand(c) {
+				decSide = append(decSide, c)
 			}
 		}
 	}
+	decSide = uniqFuncs(decSide)
+	for _, c := range decSide {
+		if encSide[c] {
+			return c
+		}
+	}
+	if len(decSide) > 0 {
+		return decSide[0]
+	}
+	var es []*ssa.Function
 	for c := range encSide {
-		return c
+		es = append(es, c)
+	}
+	if es = uniqFuncs(es); len(es) > 0 {
+		return es[0]
 	}
 	undecidedf("anchor not found: cross-bucket IV check")
 	return nil
@@ -553,17 +567,17 @@ func runC05(r *Report, tier string) {
 	}
 	r.floor("R05.5", nIV, 1, "decode-side IV check call sites")
 
-	c05Buckets(r)
+	c05Buckets(r, "R05.5")
 	c05BstrNil(r, isTF)
 	checkCountersigValuePredicate(r, "R05.7")
 }
 
 // c05Buckets: obligations inside the two bucket decoders, the per-entry
 // routing and the label scan.
-func c05Buckets(r *Report) {
+func c05Buckets(r *Report, rule string) {
 	P := r.P
 	val := shortFn(P.headerValidator())
-	ls, lsKey := P.labelScan()
+	ls, _ := P.labelScan()
 	bn := P.bstrNilType()
 	bnDec := P.methodOf(bn, "UnmarshalCBOR")
 	if bnDec == nil {
@@ -589,7 +603,7 @@ func c05Buckets(r *Report) {
 		}
 		n++
 		r.paths++
-		o := r.ob("R05.5", shortFn(ph)+":path:"+pathID(p), ph, p.ret, "protected bucket: bstr-or-reject, non-nil, then empty or (map type, label scan, mode decode, validator(true))")
+		o := r.ob(rule, shortFn(ph)+":path:"+pathID(p), ph, p.ret, "protected bucket: bstr-or-reject, non-nil, then empty or (map type, label scan, mode decode, validator(true))")
 		miss, b := fs.firstMissing([]factPat{fp(okp("call<" + shortFn(bnDec) + ">(%E, $1)")), fp("!binop<==>(" + V + ", nil)")}, nil)
 		if miss != "" {
 			o.fail("missing on a success path: " + miss)
@@ -607,11 +621,11 @@ func c05Buckets(r *Report) {
 		}, b)
 		o.check(miss == "", "map type, label scan, mode decode, validator(.., true) all on the decoded content", "missing on a non-empty success path: "+miss)
 	}
-	r.floor("R05.5", n, 2, "success paths of the protected-bucket decoder")
+	r.floor(rule, n, 2, "success paths of the protected-bucket decoder")
 	// what is stored is what was validated (or the fresh empty map)
 	for _, st := range P.receiverStores(ph) {
 		vt := P.terms.of(st.Val)
-		o := r.ob("R05.5", shortFn(ph)+":stored", ph, st, "the stored header is the validated map or a fresh empty one")
+		o := r.ob(rule, shortFn(ph)+":stored", ph, st, "the stored header is the validated map or a fresh empty one")
 		okS := vt.Op == "makemap"
 		if !okS {
 			fs := P.factsBefore(st)
@@ -631,7 +645,7 @@ func c05Buckets(r *Report) {
 			continue
 		}
 		fs := exitFacts(P, x)
-		o := r.ob("R05.5", shortFn(uh)+":exit:"+exitID(P, uh, x), uh, x.ret, "unprotected bucket: non-nil, non-empty, map type, label scan, mode decode, per-entry value decode, validator(false)")
+		o := r.ob(rule, shortFn(uh)+":exit:"+exitID(P, uh, x), uh, x.ret, "unprotected bucket: non-nil, non-empty, map type, label scan, mode decode, per-entry value decode, validator(false)")
 		miss, b := fs.firstMissing([]factPat{
 			fp("!binop<==>(0, len($1))"),
 			fp("binop<==>(5, binop<>>>(*index($1, 0), 5))"),
@@ -701,7 +715,7 @@ func c05Buckets(r *Report) {
 		vt := P.terms.of(st.Val)
 		fs := P.factsBefore(st)
 		okS := len(fs.matchAll([]factPat{fp(okp("call<" + val + ">(%X, false)"))}, bindings{"X": vt})) > 0
-		r.ob("R05.5", shortFn(uh)+":stored", uh, st, "the stored header is the validated map").check(okS, "stored "+vt.String(), "stored value "+vt.String()+" has not passed the validator with protected=false on this path")
+		r.ob(rule, shortFn(uh)+":stored", uh, st, "the stored header is the validated map").check(okS, "stored "+vt.String(), "stored value "+vt.String()+" has not passed the validator with protected=false on this path")
 	}
 	// per-entry routing: labels 7 and 11 -> countersignature decoder
 	if perEntry != nil {
@@ -748,7 +762,7 @@ func c05Buckets(r *Report) {
 				csDec = callee
 			}
 		}
-		o := r.ob("R05.5", shortFn(perEntry)+":routing", perEntry, nil, "labels 7 and 11 (normalised) are routed to the countersignature value decoder")
+		o := r.ob(rule, shortFn(perEntry)+":routing", perEntry, nil, "labels 7 and 11 (normalised) are routed to the countersignature value decoder")
 		o.check(bad == "" && routed[l7] && routed[l11] && csDec != nil, "both labels -> "+shortFn(csDec), fmt.Sprintf("%s routed 7:%v 11:%v", bad, routed[l7], routed[l11]))
 		if csDec != nil {
 			// the countersignature value decoder returns only values decoded into Countersignature / []*Countersignature
@@ -756,7 +770,7 @@ func c05Buckets(r *Report) {
 				if x.kind == exitFailure {
 					continue
 				}
-				o := r.ob("R05.5", shortFn(csDec)+":exit:"+exitID(P, csDec, x), csDec, x.ret, "returned value was decoded by the mode into a Countersignature or a list of them")
+				o := r.ob(rule, shortFn(csDec)+":exit:"+exitID(P, csDec, x), csDec, x.ret, "returned value was decoded by the mode into a Countersignature or a list of them")
 				fs := exitFacts(P, x)
 				ok1 := len(fs.matchAll([]factPat{fp(okp("call<invoke:cbor.DecMode.Unmarshal>(%M, $0, iface<*Countersignature>(%R))"))}, nil)) > 0 && x.results[0].Op == "iface" && x.results[0].S == "*Countersignature"
 				ok2 := len(fs.matchAll([]factPat{fp(okp("call<invoke:cbor.DecMode.Unmarshal>(%M, $0, iface<*[]*Countersignature>(%R))"))}, nil)) > 0 && x.results[0].Op == "iface" && x.results[0].S == "[]*Countersignature"
@@ -764,6 +778,13 @@ func c05Buckets(r *Report) {
 			}
 		}
 	}
+	c05LabelScanOnly(r, rule)
+}
+
+// c05LabelScanOnly: the raw label scan's key decoder (R05.5 / R13.4).
+func c05LabelScanOnly(r *Report, rule string) {
+	P := r.P
+	_, lsKey := P.labelScan()
 	// label scan key decoder: only major types 0, 1, 3; refuses big integers
 	kd := P.methodOf(lsKey, "UnmarshalCBOR")
 	if kd == nil {
@@ -783,7 +804,7 @@ func c05Buckets(r *Report) {
 			continue
 		}
 		npaths++
-		o := r.ob("R05.5", shortFn(kd)+":path:"+pathID(p), kd, p.ret, "label accepted only for major type 0, 1 or 3, decoded by the mode, and not a big integer")
+		o := r.ob(rule, shortFn(kd)+":path:"+pathID(p), kd, p.ret, "label accepted only for major type 0, 1 or 3, decoded by the mode, and not a big integer")
 		mt := false
 		for _, c := range p.conds {
 			if c.Val && c.Pred.Op == "binop" && c.Pred.S == "==" {
@@ -803,7 +824,7 @@ func c05Buckets(r *Report) {
 		}
 		o.check(mt && dec && big, "major type in {0,1,3}, ok(decode), not big.Int", fmt.Sprintf("major type in {0,1,3}:%v ok(mode decode):%v big.Int refused:%v", mt, dec, big))
 	}
-	r.floor("R05.5", npaths, 1, "accepting paths of the label-scan key decoder")
+	r.floor(rule, npaths, 1, "accepting paths of the label-scan key decoder")
 }
 
 // c05BstrNil: R05.6.
